@@ -65,6 +65,10 @@ type c05Step struct {
 	N    int    `json:"n"`
 	Err  string `json:"err,omitempty"`
 	Wait int    `json:"wait,omitempty"` // Proxy level only: block until this many bytes were offered to this conn's Write
+	// PauseMs (level 1): virtual time that passes between the delivery of the previous step of this
+	// connection (or the start) and the arrival of this one. While a Read waits for it, the read
+	// deadline in force on the connection can expire (virtual clock, see c05World.vnow).
+	PauseMs int64 `json:"pause_ms,omitempty"`
 }
 
 // c05WF is an injected result of the Call-th Write on a connection. Accept >= 0: that many bytes are
@@ -108,17 +112,24 @@ type c05Ev struct {
 	Seq   int
 	Dir   int // calling direction (-1 unknown)
 	Conn  int
-	Op    string // read | write | setdl | close | close-ret (the Close call #Call returned)
-	Call  int    // per (conn, op[, dir]) call index
-	N     int    // bytes returned by Read / accepted by Write
-	Len   int    // bytes offered to Write
-	Off   int    // read: bytes returned before; write: bytes offered before
-	Err   string // error kind ("" none)
-	Bad   int    // write: first offered byte that differs from the source stream at Off (-1 none)
-	BadDl int    // write: first accepted byte that does not continue the delivered stream (-1 none)
-	Fault bool   // the result was injected by the script (not a consequence of a close)
-	WG    int    // close / close-ret: WaitGroup counter at that moment (-1 unknown)
-	Sync  bool   // close: issued on a halfPipe's own goroutine (not by the detached `go closeConn(src)`)
+	Op    string        // read | write | setdl | close | close-ret (the Close call #Call returned)
+	Call  int           // per (conn, op[, dir]) call index
+	N     int           // bytes returned by Read / accepted by Write
+	Len   int           // bytes offered to Write
+	Off   int           // read: bytes returned before; write: bytes offered before
+	Err   string        // error kind ("" none)
+	Bad   int           // write: first offered byte that differs from the source stream at Off (-1 none)
+	BadDl int           // write: first accepted byte that does not continue the delivered stream (-1 none)
+	Fault bool          // the result was injected by the script (not a consequence of a close)
+	WG    int           // close / close-ret: WaitGroup counter at that moment (-1 unknown)
+	Sync  bool          // close: issued on a halfPipe's own goroutine (not by the detached `go closeConn(src)`)
+	VT    time.Duration // virtual time of the call
+	// read time-outs produced by the virtual clock (the read deadline in force expired while the
+	// connection was silent): when and by which call that deadline had been set, and its value
+	DLDriven bool
+	DLSetSeq int
+	DLSetVT  time.Duration
+	DLVal    time.Duration
 }
 
 type c05World struct {
@@ -132,14 +143,19 @@ type c05World struct {
 	last  int
 	st    [2]int
 	fire  [2]bool
-	stuck bool
-	noDL  bool // a stalled Read had to be released although no deadline was set
-	conns [2]*c05Conn
-	evs   []c05Ev
-	done  [2]int // sequence number at which the direction's halfPipe returned (0 = not yet)
-	pan   [2]any
-	timer *time.Timer
-	wgN   func() int // current WaitGroup counter (nil: unknown)
+	// virtual clock: advances only when every direction is blocked in a Read (or finished), to the
+	// earliest moment at which one of them can go on (its next scripted chunk arrives, or the read
+	// deadline in force on its connection expires)
+	vnow    time.Duration
+	parkArr [2]time.Duration // arrival time the parked Read waits for (<0: nothing will ever arrive)
+	stuck   bool
+	noDL    bool // a stalled Read had to be released although no deadline was set
+	conns   [2]*c05Conn
+	evs     []c05Ev
+	done    [2]int // sequence number at which the direction's halfPipe returned (0 = not yet)
+	pan     [2]any
+	timer   *time.Timer
+	wgN     func() int // current WaitGroup counter (nil: unknown)
 	// spin detection
 	abort      *c05Viol // set when a direction kept calling after a failure (see c05SpinLimit)
 	afterAbort int
@@ -225,12 +241,9 @@ func (w *c05World) pick() {
 	}
 	timeout := false
 	if len(cands) == 0 {
+		// nobody can move at the current virtual time: let time pass
 		timeout = true
-		for d := 0; d < 2; d++ {
-			if w.st[d] == c05StParked {
-				cands = append(cands, d)
-			}
-		}
+		cands = w.earliest()
 	}
 	if len(cands) == 0 {
 		return
@@ -246,14 +259,92 @@ func (w *c05World) pick() {
 	}
 	w.last = c
 	if timeout {
-		w.fire[c] = true
+		w.wake(c)
 	}
 	w.st[c] = c05StRunning
 	w.cond.Broadcast()
 }
 
-// park blocks a Read of direction d on its (silent) source connection c.
-func (w *c05World) park(d int, c *c05Conn) string {
+const c05Never = time.Duration(1<<62 - 1)
+
+// wakeTime is the virtual time at which the parked Read of direction d can go on.
+func (w *c05World) wakeTime(d int) time.Duration {
+	c := w.conns[d]
+	t := c05Never
+	if w.parkArr[d] >= 0 {
+		t = w.parkArr[d]
+	}
+	if c.dlSet && c.rdl < t {
+		t = c.rdl
+	}
+	return t
+}
+
+// earliest returns the parked direction(s) that can go on first; two if their times are within
+// 10 ms of virtual time (e.g. both deadlines set by the same refresh), then the schedule decides.
+func (w *c05World) earliest() []int {
+	var ps []int
+	for d := 0; d < 2; d++ {
+		if w.st[d] == c05StParked {
+			ps = append(ps, d)
+		}
+	}
+	if len(ps) == 2 {
+		a, b := w.wakeTime(0), w.wakeTime(1)
+		switch {
+		case a+10*time.Millisecond < b:
+			ps = []int{0}
+		case b+10*time.Millisecond < a:
+			ps = []int{1}
+		}
+	}
+	return ps
+}
+
+// wake advances the virtual clock to the wake time of parked direction d and releases it.
+func (w *c05World) wake(d int) {
+	if t := w.wakeTime(d); t != c05Never {
+		if t > w.vnow {
+			w.vnow = t
+		}
+	} else {
+		w.noDL = true // silent connection without a read deadline: a real relay would hang here
+	}
+	w.fire[d] = true
+}
+
+// why tells a released Read what happened: "data" (its chunk has arrived), "timeout" (the read
+// deadline in force has expired), or "again".
+func (w *c05World) why(d int, c *c05Conn) string {
+	switch {
+	case w.parkArr[d] >= 0 && w.parkArr[d] <= w.vnow:
+		return "data"
+	case w.noDL || (c.dlSet && c.rdl <= w.vnow):
+		return "timeout"
+	}
+	return "again"
+}
+
+// advanceFree is pick's time step for the uncontrolled mode.
+func (w *c05World) advanceFree() {
+	for d := 0; d < 2; d++ {
+		if w.st[d] != c05StParked && w.st[d] != c05StDone {
+			return
+		}
+		if w.st[d] == c05StParked && (w.conns[d].closed || w.fire[d]) {
+			return
+		}
+	}
+	if ps := w.earliest(); len(ps) > 0 {
+		w.wake(ps[0])
+		w.cond.Broadcast()
+	}
+}
+
+// park blocks a Read of direction d on its source connection c until the connection is closed, the
+// chunk expected at virtual time arr arrives (arr < 0: the peer stays silent for good), or the read
+// deadline in force expires - whichever the virtual clock reaches first.
+func (w *c05World) park(d int, c *c05Conn, arr time.Duration) string {
 	if w.solo || d < 0 {
 		for !c.closed && !w.stuck {
 			w.cond.Wait()
@@ -264,24 +355,27 @@ func (w *c05World) park(d int, c *c05Conn) string {
 		return "stuck"
 	}
 	w.st[d] = c05StParked
+	w.parkArr[d] = arr
 	if w.free {
 		w.cond.Broadcast()
 		for {
 			if c.closed {
 				w.st[d] = c05StRunning
+				w.fire[d] = false
 				return "closed"
 			}
 			if w.stuck {
 				w.st[d] = c05StRunning
 				return "stuck"
 			}
-			o := 1 - d
-			if w.st[o] == c05StDone || (w.st[o] == c05StParked && d < o) {
+			if w.fire[d] {
+				w.fire[d] = false
 				w.st[d] = c05StRunning
-				if !c.dlSet {
-					w.noDL = true
-				}
-				return "timeout"
+				return w.why(d, c)
+			}
+			w.advanceFree()
+			if w.fire[d] {
+				continue
 			}
 			w.cond.Wait()
 		}
@@ -297,10 +391,7 @@ func (w *c05World) park(d int, c *c05Conn) string {
 	}
 	if w.fire[d] {
 		w.fire[d] = false
-		if !c.dlSet {
-			w.noDL = true
-		}
-		return "timeout"
+		return w.why(d, c)
 	}
 	return "stuck"
 }
@@ -311,6 +402,9 @@ func (w *c05World) finish(d int, pan any) {
 	w.done[d] = w.nextSeq()
 	w.pan[d] = pan
 	w.pick()
+	if w.free && !w.solo {
+		w.advanceFree()
+	}
 	w.cond.Broadcast()
 	w.mu.Unlock()
 }
@@ -350,7 +444,12 @@ type c05Conn struct {
 	syncOpen  int  // Close calls issued on a halfPipe's own goroutine that have not returned yet
 	syncSeen  int  // such calls seen at all
 	nClose    int
-	dlSet     bool
+	dlSet     bool          // a read deadline is in force
+	rdl       time.Duration // ... at this virtual time
+	rdlSeq    int           // ... set by the call with this sequence number
+	rdlVT     time.Duration // ... at this virtual time
+	stepBase  time.Duration // virtual time at which the previous read step was delivered completely
+	arrived   bool          // the current step's pause is over
 	endHit    bool
 	failed    [5]string // per call kind (0 Read, 1 Write, 2-4 SetDeadline by up / down / unattributed): first failure handed out
 	afterFail [5]int    // calls of that kind after that failure
@@ -376,6 +475,7 @@ func (c *c05Conn) mkErr(kind, op string) error { return vconn.MkErr(kind, op, c.
 func (c *c05Conn) ev(e c05Ev) {
 	e.Seq = c.w.nextSeq()
 	e.Conn = c.idx
+	e.VT = c.w.vnow
 	if c.w.abort != nil {
 		return // the case is over; do not grow the log while a spinning direction winds down
 	}
@@ -463,6 +563,21 @@ func (c *c05Conn) read(d int, p []byte) (int, error) {
 				w.cond.Wait()
 				continue
 			}
+			if !c.arrived && !w.solo && d >= 0 {
+				if arr := c.stepBase + time.Duration(st.PauseMs)*time.Millisecond; arr > w.vnow {
+					switch w.park(d, c, arr) {
+					case "timeout":
+						return 0, c.timeoutEv(d)
+					case "stuck":
+						c.ev(c05Ev{Dir: d, Op: "read", Off: c.pos, Err: "harness-wait-limit"})
+						return 0, c.mkErr("closed", "read")
+					case "data":
+						c.arrived = true
+					}
+					continue
+				}
+				c.arrived = true
+			}
 			n := st.N - c.off
 			if n > len(p) {
 				n = len(p)
@@ -476,6 +591,8 @@ func (c *c05Conn) read(d int, p []byte) (int, error) {
 				kind = st.Err
 				c.ri++
 				c.off = 0
+				c.stepBase = w.vnow
+				c.arrived = false
 			}
 			if n == 0 && kind == "" && st.N != 0 {
 				continue
@@ -485,12 +602,11 @@ func (c *c05Conn) read(d int, p []byte) (int, error) {
 		}
 		switch c.s.End {
 		case "", "hold":
-			switch w.park(d, c) {
-			case "closed":
+			switch w.park(d, c, -1) {
+			case "closed", "again", "data":
 				continue
 			case "timeout":
-				c.ev(c05Ev{Dir: d, Op: "read", Off: c.pos, Err: "timeout", Fault: true})
-				return 0, c.mkErr("timeout", "read")
+				return 0, c.timeoutEv(d)
 			default:
 				c.ev(c05Ev{Dir: d, Op: "read", Off: c.pos, Err: "harness-wait-limit"})
 				return 0, c.mkErr("closed", "read")
@@ -501,6 +617,12 @@ func (c *c05Conn) read(d int, p []byte) (int, error) {
 			return 0, c.mkErr(c.s.End, "read")
 		}
 	}
+}
+
+// timeoutEv records a read time-out produced by the virtual clock and returns its error.
+func (c *c05Conn) timeoutEv(d int) error {
+	c.ev(c05Ev{Dir: d, Op: "read", Off: c.pos, Err: "timeout", Fault: true, DLDriven: true, DLSetSeq: c.rdlSeq, DLSetVT: c.rdlVT, DLVal: c.rdl})
+	return c.mkErr("timeout", "read")
 }
 
 // firstDiff returns the index of the first byte of p that differs from want (bytes beyond want differ).
@@ -562,7 +684,9 @@ func (c *c05Conn) write(d int, p []byte) (int, error) {
 	return n, c.mkErr(kind, "write")
 }
 
-func (c *c05Conn) setDL(d int, t time.Time) error {
+// setDL: which is 'b' (SetDeadline), 'r' (SetReadDeadline) or 'w' (SetWriteDeadline). Only the read
+// deadline matters to the virtual clock (writes of the scripted connections never block).
+func (c *c05Conn) setDL(d int, t time.Time, which byte) error {
 	w := c.w
 	w.mu.Lock()
 	defer w.mu.Unlock()
@@ -585,7 +709,13 @@ func (c *c05Conn) setDL(d int, t time.Time) error {
 			return c.mkErr(f.Err, "set")
 		}
 	}
-	c.dlSet = !t.IsZero()
+	if which != 'w' {
+		c.dlSet = !t.IsZero()
+		// the relay computes deadlines from the real clock; only microseconds of it pass in a case
+		c.rdl = w.vnow + time.Until(t)
+		c.rdlSeq = w.seq + 1
+		c.rdlVT = w.vnow
+	}
 	c.ev(c05Ev{Dir: d, Op: "setdl", Call: mine})
 	return nil
 }
@@ -665,9 +795,9 @@ func (c *c05Conn) Write(p []byte) (int, error)        { return c.write(c05Down, 
 func (c *c05Conn) Close() error                       { return c.close(-1) }
 func (c *c05Conn) LocalAddr() net.Addr                { return c.local }
 func (c *c05Conn) RemoteAddr() net.Addr               { return c.remote }
-func (c *c05Conn) SetDeadline(t time.Time) error      { return c.setDL(-1, t) }
-func (c *c05Conn) SetReadDeadline(t time.Time) error  { return c.setDL(-1, t) }
-func (c *c05Conn) SetWriteDeadline(t time.Time) error { return c.setDL(-1, t) }
+func (c *c05Conn) SetDeadline(t time.Time) error      { return c.setDL(-1, t, 'b') }
+func (c *c05Conn) SetReadDeadline(t time.Time) error  { return c.setDL(-1, t, 'r') }
+func (c *c05Conn) SetWriteDeadline(t time.Time) error { return c.setDL(-1, t, 'w') }
 
 // c05View is the connection as seen by one relay direction: the same connection state, but calls
 // are attributed to (and scheduled as) that direction.
@@ -681,9 +811,9 @@ func (v c05View) Write(p []byte) (int, error)        { return v.c.write(v.d, p) 
 func (v c05View) Close() error                       { return v.c.close(v.d) }
 func (v c05View) LocalAddr() net.Addr                { return v.c.local }
 func (v c05View) RemoteAddr() net.Addr               { return v.c.remote }
-func (v c05View) SetDeadline(t time.Time) error      { return v.c.setDL(v.d, t) }
-func (v c05View) SetReadDeadline(t time.Time) error  { return v.c.setDL(v.d, t) }
-func (v c05View) SetWriteDeadline(t time.Time) error { return v.c.setDL(v.d, t) }
+func (v c05View) SetDeadline(t time.Time) error      { return v.c.setDL(v.d, t, 'b') }
+func (v c05View) SetReadDeadline(t time.Time) error  { return v.c.setDL(v.d, t, 'r') }
+func (v c05View) SetWriteDeadline(t time.Time) error { return v.c.setDL(v.d, t, 'w') }
 
 // c05Pool is a fixed pseudo-random byte pool; the two scripted streams are disjoint slices of it, so
 // that any loss, duplication or reordering changes the bytes seen at some offset.
